@@ -69,18 +69,16 @@ package binary
 //@ func writeIsTriviallySerializableSpecialization@emits:"sizeof(__T__::%s)"
 //@   property C01,C14
 //@   ensures emitted("sizeof(__T__::%s)") == 1 && emittedArg("sizeof(__T__::%s)", 0, 0, string) == common.FieldIdentifierName(f.Name)
-// (C14: a record that takes the memcpy path is written as its in-memory bytes, which is only the plan the other
-// languages follow - field after field, nothing in between or behind - when the guard holds.)
-// Only records have such a fast path: an enum, flags or alias definition gets no specialisation of its own (an enum
-// is written as a varint of its value, whatever its size in memory), and every definition passes through this one
-// function.
-//@ func writeIsTriviallySerializableSpecializations
-//@   property C01,C14
-//@   iteration 1: every_definition_goes_through_the_one_guard_writer: called(writeIsTriviallySerializableSpecialization) && lastArg(writeIsTriviallySerializableSpecialization, 1) == td
-//@ observe-args cpp/binary.writeIsTriviallySerializableSpecialization
+// The layout test that guards the raw-copy fast path names struct members: every member is named exactly as the struct
+// declares it (cpp/types prints FieldIdentifierName(field.Name)); a name mapped twice (`r2D2` -> `r2d2` -> `r2d_2`)
+// is not a member and the generated header does not compile.
+//@ func writeIsTriviallySerializableSpecialization@emits:"offsetof(__T__, %s) < offsetof(__T__, %s)"
+//@   property C01,C14,C08
+//@   inline
+//@   iteration 0: consecutive_fields_are_compared_by_their_member_names: i > 0 ==> emitted("offsetof(__T__, %s) < offsetof(__T__, %s)") == 1 && emittedArg("offsetof(__T__, %s) < offsetof(__T__, %s)", 0, 0, string) == common.FieldIdentifierName(t.Fields[i-1].Name) && emittedArg("offsetof(__T__, %s) < offsetof(__T__, %s)", 0, 1, string) == common.FieldIdentifierName(f.Name)
+//@   iteration 0: the_first_field_has_no_predecessor: i == 0 ==> emitted("offsetof(__T__, %s) < offsetof(__T__, %s)") == 0
 //@ func writeIsTriviallySerializableSpecialization
 //@   property C01,C14
-//@   ensures only_records_have_a_fast_path: typeof(t) != *dsl.RecordDefinition ==> emittedAny() == 0
 //@   ensures every_field_must_be_trivial: typeof(t) == *dsl.RecordDefinition && t.(*dsl.RecordDefinition) != nil ==> emitted("IsTriviallySerializable<decltype(__T__::%s)>::value") == old(len(t.(*dsl.RecordDefinition).Fields)) && (forall k in 0..old(len(t.(*dsl.RecordDefinition).Fields)) :: emittedArg("IsTriviallySerializable<decltype(__T__::%s)>::value", k, 0, string) == common.FieldIdentifierName(old(t.(*dsl.RecordDefinition).Fields[k].Name)))
 //@   ensures size_is_sum_of_all_fields: typeof(t) == *dsl.RecordDefinition && t.(*dsl.RecordDefinition) != nil && old(len(t.(*dsl.RecordDefinition).Fields)) > 0 ==> emitted("(sizeof(__T__) == (") == 1 && emitted("sizeof(__T__::%s)") == old(len(t.(*dsl.RecordDefinition).Fields)) && (forall k in 0..old(len(t.(*dsl.RecordDefinition).Fields)) :: emittedArg("sizeof(__T__::%s)", k, 0, string) == common.FieldIdentifierName(old(t.(*dsl.RecordDefinition).Fields[k].Name)))
 
@@ -124,13 +122,6 @@ package binary
 //@   ensures an_added_step_writes_nothing: write ==> !called(writeStepRw) && emitted("values.clear();\n") == 0 && emitted("value = std::move(%s);\n") == 0
 //@   ensures an_added_step_reads_as_empty: (!write && isPlural ==> emitted("values.clear();\n") == 1) && (!write && !isPlural ==> emitted("%s %s = {};\n") == 1 && emitted("value = std::move(%s);\n") == 1)
 //@   ensures an_added_stream_has_no_items: !write && !isPlural ==> (lastResult("dsl.(*ProtocolStep).IsStream") ==> emitted("return false;\n") == 1) && (!lastResult("dsl.(*ProtocolStep).IsStream") ==> emitted("return false;\n") == 0)
-// a step whose type changed and needs conversion code: one item of a stream is only converted when one was read (at the
-// end of the stream the temporary holds no value: converting it would throw, or invent an item)
-//@ func writeProtocolStep$3
-//@   property C05,C01
-//@   ensures a_stream_item_is_converted_only_when_one_was_read: !write && !isPlural && lastResult("dsl.(*ProtocolStep).IsStream") && requiresExplicitConversion(change) ==> emitted("if (read_block_successful) {\n") == 1
-//@   ensures a_change_without_conversion_code_is_read_with_the_old_type: !requiresExplicitConversion(change) ==> calls(writeStepRw) == 1 && !called(writeTypeConversion)
-//@   ensures a_converting_change_reads_or_writes_the_old_type_once: requiresExplicitConversion(change) ==> calls(writeStepRw) == 1 && called(writeTypeConversion) && emitted("%s %s = {};\n") >= 1
 //@ func writeEndStream$1
 //@   property C01
 //@   ensures a_stream_ends_with_an_empty_block: emitted("yardl::binary::WriteInteger(stream_, 0U);\n") == 1
